@@ -695,6 +695,18 @@ def generate(repo, work):
     v = ec.thrown(ec.probes_err, 'c09probe_fmtIntArg')
     L.append('/-- `Error("… {} …", n)` with one int argument: which constructor overload resolution picks -/')
     L.append('def exitCode_fmtIntArg (n : Int) : Int := %s' % ec.lean(v))
+    for nm, tu, filt, meth in (('undefinedFunction', '#include "mp/nl-reader.h"\n', 'BeginCall', 'BeginCall'),
+                               ('redefinedFunction', '#include "mp/expr.h"\n', 'DefineFunction', 'DefineFunction')):
+        docs = clang(repo, work, 'c09_fn_%s.cc' % nm, tu, filt)
+        th = []
+        for d in docs:
+            if d.get('name') == meth:
+                th += find_all(d, lambda x: x.get('kind') == 'CXXThrowExpr')
+        if len(th) != 1:
+            raise TranslateError('%s: expected exactly one throw, found %d' % (meth, len(th)))
+        v = ec.object(th[0]['inner'][0], 0)
+        L.append('/-- the object thrown by %s ("function {} is %s defined") -/' % (meth, 'not' if nm == 'undefinedFunction' else 'already'))
+        L.append('def exitCode_%s : Int := %s' % (nm, 'errorMsgCtorDefaultCode' if v == ('lit', -1) else ec.lean(v)))
     L.append('')
     handlers, ret, try_calls = run_ladder(repo, work, consts)
     L.append('/-! ## BackendApp::Run -/')
